@@ -31,10 +31,14 @@ TRUSTED_BASE = [
 ]
 ASSUMPTIONS = [
     'PARTIAL: only `ret = await future` can raise inside run_in_process._run (creating the queue, the executor and the '
-    'process succeeds); which answers a worker behaviour allows is the relation Proc.Model.consistent, read from experiments '
+    'process succeeds; executor.shutdown in the helper thread does not raise); which answers a worker behaviour allows is the relation Proc.Model.consistent, read from experiments '
     '(CPython 3.12.1: unpicklable return value -> raised=AttributeError/PicklingError; SystemExit -> raised=SystemExit, exit code 0; '
     'SIGINT while the function runs -> raised=KeyboardInterrupt, exit code 0; SIGINT during boot -> neither, exit code 1 or -2)',
     'cancellation of the task that awaits the handle is outside the quantifier of C17 and not modelled',
+    'known finding hang:log-listener-never-ends (worker dies inside a log-pipe write) is part of the model (world flag died_in_log_write); '
+    'corpus/C17/kill_while_logging.json reproduces it on every run',
+    'helper thread of the repaired shutdown = a worker of the loop\'s default executor (asyncio_N), counted as the loop\'s own; every other '
+    'thread must be gone once all references are dropped',
     'instants: Boot = the function never started; Running = the function had started and cannot finish by itself; '
     'Racing = everything else (classified from marker files written by the worker)',
     '"before exit" for interrupt/terminate/kill = the worker is verifiably alive by construction (boot, or blocked in the function); '
@@ -172,6 +176,16 @@ def logging_family(rng, n):
     return out
 
 
+def linger_family(rng, n):
+    """the worker process outlives its function by 2 s (a non-daemon thread): the handle must
+    complete only after the process has gone"""
+    out = []
+    for i in range(n):
+        clog, init = CFGS[i % 4]
+        out.append(S(rng.choice(['return', 'raise']), 6, clog, init, None, linger=2.0))
+    return out
+
+
 def gen_scenarios(rng, tier: str) -> list[dict]:
     if tier == 'quick':
         scn = plain_family(rng)                                               # 20
@@ -179,12 +193,14 @@ def gen_scenarios(rng, tier: str) -> list[dict]:
         scn += boot_family(rng, [0.0, 0.03, 0.08, 0.12])                      # 12
         scn += race_family(rng, [-0.01, 0.0, 0.004, 0.01])                    # 12
         scn += logging_family(rng, 4)                                         # 5
+        scn += linger_family(rng, 2)                                          # 2
     else:
         scn = plain_family(rng, reps=3)                                       # 60
         scn += running_family(rng) + running_family(rng)                      # 48
         scn += boot_family(rng, [i * 0.005 for i in range(0, 44)])            # 132
         scn += race_family(rng, [(-0.02 + i * 0.0015) for i in range(0, 60)]) # 180
         scn += logging_family(rng, 120)                                       # 160
+        scn += linger_family(rng, 8)
     return scn
 
 
